@@ -6,7 +6,8 @@
 (* Pair(P,Q) multiplies coefficients; ValidatePairing compares two forms.   *)
 (* A behaviour has the phase structure                                      *)
 (*   init pool ; [pre-op on a G1 register] ; [pre-op on a G2 register] ;     *)
-(*   t1 := e(x,y) ; [in-place op on t1] ; t2 := e(x',y') | s*t1 | t1+t1 | -t1 ;   *)
+(*   t1 := e(x,y) ; t2 := e(x',y') | s*t1 | t1+t1 | -t1 ;                    *)
+(*   [in-place op on t1: t1+t2, t1+t1, t1-t2, t2-t1, -t1, s*t1] ; [t2 := e(..)] ; *)
 (*   validate(x,y,x',y')                                                    *)
 (* so that pairings see operands left in non-normalised internal form by     *)
 (* earlier arithmetic.                                                       *)
@@ -14,7 +15,8 @@ EXTENDS Laurent, TLC, Json
 
 CONSTANTS PreOps,  \* TRUE: phases 1,2 are arithmetic pre-ops; FALSE: they are skipped
           InPlaceOps, \* TRUE: phase 4 may overwrite the first pairing result in place
-          SmallPool,  \* TRUE: reduced operand pools and a single second step (exhaustive pre-op x pairing sweep)
+          SmallPool,  \* TRUE: reduced operand pools; without InPlaceOps a single second step (exhaustive pre-op x pairing
+                      \* sweep), with InPlaceOps every second step x every in-place op and no third step (exhaustive in-place sweep)
           CMax, DMax
 
 VARIABLES s, a, b, t, hist
@@ -73,12 +75,14 @@ TStep(op, d, x, y, v) == TSm(v) /\ t' = [t EXCEPT ![d] = v] /\ UNCHANGED <<s, a,
 PreA ==
   \/ \E x, y \in AReg : AStep("a.add", "a2", x, y, PAdd(a[x], a[y]))
   \/ \E x \in AReg : AStep("a.neg", "a2", x, "", PNeg(a[x]))
+  \/ \E x, y \in AReg : AStep("a.sub", "a2", x, y, PAdd(a[x], PNeg(a[y])))
   \/ \E k \in SReg, x \in AReg : PMulOK(s[k], a[x]) /\ AStep("a.mul", "a2", k, x, PMul(s[k], a[x]))
   \/ \E k \in SReg : AStep("a.mul", "a2", k, "nil", PMul(s[k], PBase))
   \/ AStep("a.skip", "a2", "", "", a["a2"])
 PreB ==
   \/ \E x, y \in BReg : BStep("b.add", "b2", x, y, PAdd(b[x], b[y]))
   \/ \E x \in BReg : BStep("b.neg", "b2", x, "", PNeg(b[x]))
+  \/ \E x, y \in BReg : BStep("b.sub", "b2", x, y, PAdd(b[x], PNeg(b[y])))
   \/ \E k \in SReg, x \in BReg : PMulOK(s[k], b[x]) /\ BStep("b.mul", "b2", k, x, PMul(s[k], b[x]))
   \/ \E k \in SReg : BStep("b.mul", "b2", k, "nil", PMul(s[k], PBase))
   \/ BStep("b.skip", "b2", "", "", b["b2"])
@@ -95,6 +99,8 @@ InPlace ==
   \/ TStep("t.skip", "t1", "", "", t["t1"])
   \/ TStep("t.add", "t1", "t1", "t2", TAdd(t["t1"], t["t2"]))
   \/ TStep("t.add", "t1", "t1", "t1", TAdd(t["t1"], t["t1"]))
+  \/ TStep("t.sub", "t1", "t1", "t2", TAdd(t["t1"], TNeg(t["t2"])))   \* receiver = minuend
+  \/ TStep("t.sub", "t1", "t2", "t1", TAdd(t["t2"], TNeg(t["t1"])))   \* receiver = subtrahend
   \/ TStep("t.neg", "t1", "t1", "", TNeg(t["t1"]))
   \/ \E k \in SReg : TMulOK(s[k], t["t1"]) /\ TStep("t.mul", "t1", k, "t1", TMul(s[k], t["t1"]))
 
@@ -118,9 +124,9 @@ Next ==
   CASE Len(hist) = 1 -> IF PreOps THEN PreA ELSE AStep("a.skip", "a2", "", "", a["a2"])
     [] Len(hist) = 2 -> IF PreOps THEN PreB ELSE BStep("b.skip", "b2", "", "", b["b2"])
     [] Len(hist) = 3 -> Pair1
-    [] Len(hist) = 4 -> IF SmallPool THEN TStep("t.neg", "t2", "t1", "", TNeg(t["t1"])) ELSE Second
+    [] Len(hist) = 4 -> IF SmallPool /\ ~InPlaceOps THEN TStep("t.neg", "t2", "t1", "", TNeg(t["t1"])) ELSE Second
     [] Len(hist) = 5 -> IF InPlaceOps THEN InPlace ELSE TStep("t.skip", "t1", "", "", t["t1"])
-    [] Len(hist) = 6 -> IF InPlaceOps THEN Third ELSE TStep("t.skip", "t2", "", "", t["t2"])
+    [] Len(hist) = 6 -> IF InPlaceOps /\ ~SmallPool THEN Third ELSE TStep("t.skip", "t2", "", "", t["t2"])
     [] Len(hist) = 7 -> Observe
     [] OTHER -> FALSE
 
